@@ -46,6 +46,20 @@ def entries():
             a = (vi, v, s, n, an, at)
             for op in ["clamp", "within", "mix", "lighten", "darken", "lighten_fixed", "darken_fixed"]:
                 out.append('op_e!(%s, %d, %s, %s, %d, "%s", %s),' % ((op,) + a))
+            # assigning forms: two vector types (one per scalar type) are enough, the impls are generic over the vector
+            assign = v in ("f32x8", "f64x2")
+            if assign:
+                for op in ["clamp_assign", "mix_assign", "lighten_assign", "darken_assign", "lighten_fixed_assign", "darken_fixed_assign"]:
+                    out.append('op_e!(%s, %d, %s, %s, %d, "%s", %s),' % ((op,) + a))
+                if an in HUE:
+                    for op in ["shift_hue_assign", "set_hue"]:
+                        out.append('op_e!(%s, %d, %s, %s, %d, "%s", %s),' % ((op,) + a))
+                if an in SAT:
+                    for op in ["saturate_assign", "desaturate_assign", "saturate_fixed_assign"]:
+                        out.append('op_e!(%s, %d, %s, %s, %d, "%s", %s),' % ((op,) + a))
+                if an in ARITH:
+                    for op in ["add_assign", "sub_assign", "mul_assign", "div_assign", "mul_scalar_assign"]:
+                        out.append('op_e!(%s, %d, %s, %s, %d, "%s", %s),' % ((op,) + a))
             if an in HUE:
                 for op in ["shift_hue", "get_hue", "with_hue"]:
                     out.append('op_e!(%s, %d, %s, %s, %d, "%s", %s),' % ((op,) + a))
